@@ -153,7 +153,7 @@ pub fn sweep(_seed: u64) -> usize {
         target("t5", &[("other", "a"), ("players", "7")]),
     ];
     let hosts = ["lobby.example.org", "mini.example.org", "other"];
-    let users = [("alice", alice), ("bob", bob), ("al", bob)];
+    let users = [("alice", alice), ("bob", bob), ("al", bob), ("Alice", bob), ("BOB", alice)];
     let mut found = 0usize;
     let mut cases = 0usize;
     // chains: every single filter, and every ordered pair taken with stride (keeps the sweep at a few thousand chains)
